@@ -42,7 +42,9 @@ def oracle_exec(chk, sources, triples=diffexec.ALL_CONFIGS, what="converted prog
                 continue
             chk.add_violation(what, source=src, config=dict(zip(("unparser", "expr_wrapper", "if_style"), tr)),
                               status=status, detail=detail)
-    chk.coverage.setdefault("direct_oracle", {}).update(counts)
+    cov = chk.coverage.setdefault("direct_oracle", {})
+    for k, v in counts.items():
+        cov[k] = cov.get(k, 0) + v
     return counts
 
 
